@@ -95,6 +95,8 @@ def run(ck, ctx):
                      "stream.read passes write_all(write_buffer) or the `write_buffer.is_empty()` true edge (or leaves the loop)")
     ck.rule("R04.6", "recogniser constants: the offset used to skip a matched prefix equals the length of the byte-string literal "
                      "the recogniser (or its dispatching guard) tested with starts_with")
+    ck.rule("R04.7", "segmentation independence of the decoder: a length-prefixed parser never rejects a frame between learning its size "
+                     "and knowing it is complete (a read that ends inside a frame yields NeedMoreData, not a protocol error) - shared with C15")
     ck.nd("that each reply equals the stand-alone reply (C01/C03)")
     ck.nd("segmentation behaviour beyond 'NeedMoreData consumes nothing' (RespCodec's incomplete-input contract is C15)")
     for cfg in ctx.configs:
@@ -105,6 +107,8 @@ def run(ck, ctx):
         _r042(ck, prog, cfg)
         _r043_044(ck, prog, cfg)
         _r046(ck, prog, cfg)
+        from . import c15
+        c15.prefix_rule(ck, prog, cfg, "R04.7")
 
 
 # ---------------------------------------------------------------------------------------------
